@@ -1,4 +1,5 @@
 import VelaVerif.Lemmas.TfliteRoundtrip
+import VelaVerif.Lemmas.TfliteLoop
 import VelaVerif.Model.TfliteDemo2
 /-!
 # C11 — the writer / reader round trip, assembled
@@ -190,5 +191,24 @@ two-dimensional constant convolution weights — writing succeeds, reading and n
 example : roundtripDomain badWeights = true ∧
     (write badWeights).toOption.map (fun m => errorOf (Reader.read badWeights.version m)) = some "index" ∧
     errorOf (normalise badWeights) = "index" := by decide +kernel
+
+/-! ## the two normal forms
+
+`Spec.normalise` (Spec/TfliteRoundtrip.lean, import free: linked into the driver and compared with the REAL reader on the REAL
+writer's files, request `wnorm`) and `Roundtrip.normalise` (here, with the decidable success domain and the closed form without
+surgery) were written independently; on everything the writer accepts both are the reader's result on the written file. -/
+theorem normal_forms_agree (d : Desc) (m : ModelT) (h : Writer.write d = .ok m) : Spec.normalise d = normalise d := by
+  have h1 := read_write_roundtrip_all d m h
+  cases hs : (subgraphsToWrite d).mapM (prepSub d.tensors) with
+  | error e => rw [(write_err d e hs []).1] at h; exact absurd h (by simp)
+  | ok subs =>
+    rw [write_eq d subs hs] at h
+    rw [← Spec.read_writeWith d subs hs _ m h, h1]
+
+/-- so the decidable domain of `read_write_roundtrip` is also a success domain for `Spec.normalise` -/
+theorem spec_normalise_ok (d : Desc) (m : ModelT) (hd : RoundtripDomain d) (h : Writer.write d = .ok m) :
+    ∃ nd, Spec.normalise d = .ok nd ∧ Reader.read d.version m = .ok nd := by
+  obtain ⟨nd, h1, h2⟩ := read_write_roundtrip d m hd h
+  exact ⟨nd, by rw [normal_forms_agree d m h, h1], h2⟩
 
 end VelaVerif.Props.C11Roundtrip
